@@ -561,7 +561,7 @@ pub fn gen_rule(rng: &mut Rng, ing: &Ingredients, cfg: &GenCfg, depth: usize, co
 // rule trees are almost always false (Cedar's lesson); relations, fields, stop rules and positions
 // are taken from the node's real context, then sometimes perturbed into a near miss.
 
-fn field_of_child(parent: &N, child: &N) -> Option<String> {
+pub fn field_of_child(parent: &N, child: &N) -> Option<String> {
   let tsn = parent.get_ts_node();
   let mut c = tsn.walk();
   if !c.goto_first_child() {
@@ -678,6 +678,13 @@ pub fn gen_witnessed(rng: &mut Rng, lang: SupportLang, n: &N, depth: usize, coun
         };
         if rng.chance(1, 8) { stop = Stop::Neighbor; }
         if rng.chance(1, 10) { field = d.parent().and_then(|p| field_of_child(&p, &d)); }
+        // the stop rule true AT the field child while the target lies below it: the search must not pass it
+        if path.len() >= 2 && rng.chance(1, 2) {
+          if let Some(f) = field_of_child(n, &path[0]) {
+            field = Some(f);
+            stop = Stop::Rule(atom(rng, &path[0], counter));
+          }
+        }
         RKey::Has(Box::new(Rel { rule: sub(rng, &d, counter), stop, field }))
       }
     }
